@@ -1,128 +1,6 @@
-(* Driver for the extracted model (trusted glue): parses the op lines of a trace
-   written by `xsv seq`, runs Xsmodel.step, prints the model's observations in the
-   same canonical text form the harness uses. *)
+(* Driver for the extracted model (trusted glue). *)
 open Xsmodel
-
-(* ---- N <-> hex ------------------------------------------------------------ *)
-let rec pos_of_bits = function          (* bits MSB first, leading 1 *)
-  | [] -> failwith "pos_of_bits"
-  | [true] -> XH
-  | _ :: [] -> failwith "pos_of_bits"
-  | bits ->
-    (* build from MSB: fold *)
-    let rec go acc = function
-      | [] -> acc
-      | b :: r -> go (if b then XI acc else XO acc) r in
-    (match bits with
-     | true :: r -> go XH r
-     | _ -> failwith "pos_of_bits: leading zero")
-
-let n_of_hex (s : string) : n =
-  let bits = ref [] in
-  String.iter (fun c ->
-      let v = match c with
-        | '0'..'9' -> Char.code c - 48
-        | 'a'..'f' -> Char.code c - 87
-        | 'A'..'F' -> Char.code c - 55
-        | _ -> failwith ("bad hex: " ^ s) in
-      bits := ((v land 1) = 1) :: ((v land 2) = 2) :: ((v land 4) = 4) :: ((v land 8) = 8) :: !bits)
-    s;
-  (* !bits is LSB first; make MSB first and strip leading zeros *)
-  let msb = List.rev !bits in
-  let rec strip = function false :: r -> strip r | l -> l in
-  match strip msb with
-  | [] -> N0
-  | l -> Npos (pos_of_bits l)
-
-let rec pos_bits_lsb = function
-  | XH -> [true]
-  | XO p -> false :: pos_bits_lsb p
-  | XI p -> true :: pos_bits_lsb p
-
-let hex_of_n ?(width=0) (x : n) : string =
-  let bits = match x with N0 -> [] | Npos p -> pos_bits_lsb p in
-  let rec nibbles = function
-    | [] -> []
-    | [a] -> [a, false, false, false]
-    | [a; b] -> [a, b, false, false]
-    | [a; b; c] -> [a, b, c, false]
-    | a :: b :: c :: d :: r -> (a, b, c, d) :: nibbles r in
-  let digs = List.map (fun (a, b, c, d) ->
-      (if a then 1 else 0) + (if b then 2 else 0) + (if c then 4 else 0) + (if d then 8 else 0))
-      (nibbles bits) in
-  let s = String.concat "" (List.rev_map (Printf.sprintf "%x") digs) in
-  let s = if s = "" then "0" else s in
-  if String.length s < width then String.make (width - String.length s) '0' ^ s else s
-
-let n_of_int (i : int) : n = n_of_hex (Printf.sprintf "%x" i)
-let int_of_n (x : n) : int = int_of_string ("0x" ^ hex_of_n x)
-
-(* ---- bytes <-> hex with 'x' prefix; '-' = none ----------------------------- *)
-let bytes_of_xhex (s : string) : bytes =
-  if String.length s = 0 || s.[0] <> 'x' then failwith ("bad bytes: " ^ s);
-  let n = (String.length s - 1) / 2 in
-  List.init n (fun i -> n_of_int (int_of_string ("0x" ^ String.sub s (1 + 2 * i) 2)))
-
-let xhex_of_bytes (b : bytes) : string =
-  "x" ^ String.concat "" (List.map (fun x -> Printf.sprintf "%02x" (int_of_n x)) b)
-
-let opt f s = if s = "-" then None else Some (f s)
-let id_of s = n_of_hex s
-let str_of_id x = hex_of_n ~width:32 x
-
-let ttl_of s =
-  if s = "-" then None
-  else if s = "forever" then Some Forever
-  else if s = "ephemeral" then Some Ephemeral
-  else if String.length s > 5 && String.sub s 0 5 = "time:" then
-    Some (Time (n_of_hex (String.sub s 5 (String.length s - 5))))
-  else if String.length s > 5 && String.sub s 0 5 = "head:" then
-    Some (Head (n_of_hex (String.sub s 5 (String.length s - 5))))
-  else failwith ("bad ttl: " ^ s)
-
-let str_of_ttl = function
-  | None -> "-"
-  | Some Forever -> "forever"
-  | Some Ephemeral -> "ephemeral"
-  | Some (Time ms) -> "time:" ^ hex_of_n ms
-  | Some (Head k) -> "head:" ^ hex_of_n k
-
-let str_of_optbytes = function None -> "-" | Some b -> xhex_of_bytes b
-
-let str_of_frame f =
-  String.concat ","
-    [ str_of_id f.f_id; str_of_id f.f_ctx; xhex_of_bytes f.f_topic;
-      str_of_optbytes f.f_hash; str_of_optbytes f.f_meta; str_of_ttl f.f_ttl ]
-
-let frame_of id ctx topic hash meta ttl =
-  { f_id = id_of id; f_ctx = id_of ctx; f_topic = bytes_of_xhex topic;
-    f_hash = opt bytes_of_xhex hash; f_meta = opt bytes_of_xhex meta; f_ttl = ttl_of ttl }
-
-let parse_op (toks : string list) : op =
-  match toks with
-  | ["append"; id; ctx; topic; hash; meta; ttl] ->
-    OAppend (id_of id, frame_of "0" ctx topic hash meta ttl)
-  | ["import"; id; ctx; topic; hash; meta; ttl] -> OImport (frame_of id ctx topic hash meta ttl)
-  | ["remove"; id] -> ORemove (id_of id)
-  | ["setnow"; t] -> OSetNow (n_of_hex t)
-  | ["gcstep"] -> OGcStep
-  | ["drain"] -> ODrain
-  | ["reopen"] -> OReopen
-  | ["readsync"; last; lim; ctx] -> OReadSync (opt id_of last, opt n_of_hex lim, opt id_of ctx)
-  | ["read"; last; lim; ctx] -> ORead (opt id_of last, opt n_of_hex lim, opt id_of ctx)
-  | ["get"; id] -> OGet (id_of id)
-  | ["head"; topic; ctx] -> OHead (bytes_of_xhex topic, id_of ctx)
-  | _ -> failwith ("bad op: " ^ String.concat " " toks)
-
-let str_of_obs = function
-  | RFrame (Ok f) -> "= ok " ^ str_of_frame f
-  | RFrame (Err _) -> "= err"
-  | RUnit (Ok _) -> "= unit"
-  | RUnit (Err _) -> "= err"
-  | RNone -> "= done"
-  | RFrames l -> String.concat " " ("= frames" :: string_of_int (List.length l) :: List.map str_of_frame l)
-  | ROpt None -> "= none"
-  | ROpt (Some f) -> "= some " ^ str_of_frame f
+open Driverlib
 
 (* `seq`: stdin = trace; lines "OP ..." are executed, everything else is skipped;
    a line "NEW <now>" starts a fresh store.  Output per op:
@@ -143,7 +21,7 @@ let run_seq () =
          s := empty_store (n_of_hex now); a := a_empty (n_of_hex now); print_endline line
        | "OP" :: rest ->
          let o = parse_op rest in
-         let h = hyp_ok !a o in
+         let h = hyp_all !a o in
          let (ob, s') = step !s o in
          let (ab, a') = a_step !a o in
          s := s'; a := a';
@@ -156,7 +34,28 @@ let run_seq () =
      done
    with End_of_file -> ())
 
+let read_lines () =
+  let ls = ref [] in
+  (try while true do ls := input_line stdin :: !ls done with End_of_file -> ());
+  List.rev !ls
+
+(* `gen-sched <locked 0|1> <seed> <steps> <finish 0|1>`: stdin = configuration lines;
+   stdout = schedule with expectations.
+   `labels-sched <locked>`: stdin = configuration lines followed by "label idx" lines. *)
 let () =
   match Array.to_list Sys.argv with
   | _ :: "seq" :: _ -> run_seq ()
-  | _ -> prerr_endline "usage: xsmodel seq < trace"; exit 2
+  | [_; "gen-sched"; locked; seed; steps; finish] ->
+    let cfg = Schedgen.parse_cfg (read_lines ()) in
+    List.iter print_endline
+      (Schedgen.gen (locked = "1") cfg (int_of_string seed) (int_of_string steps) (finish = "1"))
+  | [_; "labels-sched"; locked] ->
+    let lines = read_lines () in
+    let cfg = Schedgen.parse_cfg lines in
+    let labels = List.filter_map (fun l ->
+        match String.split_on_char ' ' (String.trim l) with
+        | [name; i] when List.mem name ["enter"; "commit"; "bcast"; "release"; "poll"; "subscribe"; "start";
+                                        "hist"; "live"; "consume"; "probe"] -> Some (name, int_of_string i)
+        | _ -> None) lines in
+    List.iter print_endline (Schedgen.of_labels (locked = "1") cfg labels)
+  | _ -> prerr_endline "usage: xsmodel seq|gen-sched|labels-sched"; exit 2
